@@ -55,6 +55,17 @@ Proof. exact size_toolarge. Qed.
 Print Assumptions C03_size_toolarge.
 
 (* the ranges the property names are inside the proved ranges *)
+(* The encoding is prefix-free, hence injective: no integer's encoding is a proper prefix of another's,
+   so a sequence of VarInts (the frame-length / packet-id prefixes of the stream) is cut in exactly one way. *)
+Theorem C03_send_prefix_free : forall a b x y,
+  varint_send a = Ok x -> varint_send b = Ok (x ++ y) -> y = [] /\ a = b.
+Proof. exact send_prefix_free. Qed.
+Print Assumptions C03_send_prefix_free.
+
+Theorem C03_send_injective : forall a b bs, varint_send a = Ok bs -> varint_send b = Ok bs -> a = b.
+Proof. exact send_injective. Qed.
+Print Assumptions C03_send_injective.
+
 Example C03_ranges : 2 ^ 32 <= 128 ^ (5 + 1) /\ 2 ^ 64 <= 128 ^ (10 + 1) /\ 128 ^ (10 + 1) <= 2 ^ 84.
 Proof. vm_compute. repeat split; discriminate. Qed.
 
